@@ -197,6 +197,15 @@ func (g *gen) stmt0(d int, top bool) []stmtText {
 	switch {
 	case x < 16:
 		g.kindHit("expr")
+		if g.level >= 2021 && r.Chance(1, 8) {
+			// logical assignment: only as a plain statement with a simple right-hand side (K11)
+			if v := g.mutVarOf(g.primKind()); v != nil {
+				l := g.leaf(v.k)
+				if l.p == pPrimary && !strings.HasPrefix(l.s, "(") && !strings.HasPrefix(l.s, "{") && !strings.HasPrefix(l.s, "[") {
+					return one(";"+v.name+r.Pick("&&=", "||=", "??=")+l.s, true)
+				}
+			}
+		}
 		if r.Chance(1, 3) {
 			return one(g.exprStmtText(g.expr(kAny, d)), true)
 		}
@@ -680,6 +689,9 @@ func (g *gen) funcParts(d int, fc *fctx, nStmts int, exprBody bool) (params stri
 			g.declare(&variable{name: p, k: kAny, mut: true, decl: "param"})
 			ps = append(ps, p+"="+def)
 			simple = false
+			if !g.known {
+				fc.args = false // N02: dropping the parameter changes arguments mapping
+			}
 		case 1: // destructured with default (the minifier's parser rejects these in arrow functions)
 			if fc.isArrow {
 				break
@@ -1045,6 +1057,7 @@ func (g *gen) idiom(d int, top bool) []stmtText {
 	h := g.host
 	e := func() string { return g.w(g.expr(kAny, d-1), pAssign) }
 	c := func() string { return g.condTest(d - 1).s }
+	cp := func() string { return g.w(g.condTest(d-1), pBitOr) }
 	switch r.Intn(26) {
 	case 0: // return merging inside a function
 		f := g.fresh("f")
@@ -1162,9 +1175,9 @@ func (g *gen) idiom(d int, top bool) []stmtText {
 	case 15: // typeof guards
 		return one("if(typeof "+r.Pick("nope1", "g0", "h0", "undefined")+r.Pick("===", "!==", "==", "!=")+r.Pick("\"undefined\"", "'function'", "\"number\"")+")"+h()+"(1);else "+h()+"(2)", true)
 	case 16: // comma / conditional chains at statement level
-		return one(g.exprStmtText(ex{s: c() + "?" + h() + "(1):" + c() + "?" + h() + "(2):" + h() + "(3)", p: pCond}), true)
+		return one(g.exprStmtText(ex{s: cp() + "?" + h() + "(1):" + cp() + "?" + h() + "(2):" + h() + "(3)", p: pCond}), true)
 	case 17: // logical statement chains
-		return one(g.exprStmtText(ex{s: c() + "&&" + h() + "(1)||" + h() + "(2)", p: pOr}), true)
+		return one(g.exprStmtText(ex{s: cp() + "&&" + h() + "(1)||" + h() + "(2)", p: pOr}), true)
 	case 18: // nested function declarations with closures over renamed locals
 		f, inner := g.fresh("f"), g.fresh("f")
 		a, b := g.fresh("v"), g.fresh("v")
